@@ -61,6 +61,10 @@ CHECKS = {
    tech="TLA+ spec TermSelect.tla (Enhance/Cap stages): TLC exhaustive on scaled constants; generated queries run on the real engine with NLP off/on and through ProcessQuery; TLC validates each recorded observation (TraceSearch.tla TNlp)",
    text="TLC checks on every user token list (scaled constants) that enhancement appends and the cap keeps the user's words (up to M) and always the first P; generated sentences (action/target/stop/synonym/unknown/repeated words, 1..14 content words, synthetic and shipped database) are searched with NLP off and on at a limit above the database size and analysed by the real ProcessQuery; TLC checks for each: off-results are a subset of on-results up to ten content words, matches of the first four words are always retained, the expanded list starts with the keywords in the user's order without duplicates, and re-analysis is identical.",
    note="Reference tokeniser counts content words; real constants covered by generated queries, scaled ones exhaustively."),
+ "C19": dict(cat="model_checking", ref="DESIGN.md section 5, C19",
+   tech="TLA+ spec Embed.tla (loader protocol with allocation accounting): TLC exhaustive over abstract files; every abstract file materialised and loaded by the real loaders in a memory-limited child; paired searches with/without an attached index and cosine evaluations recorded; TLC validates all observations (TraceEmbed.tla)",
+   text="TLC checks the loader protocol for every abstract file (header, claimed vs present records, truncation) - allocation proportional to the file, vectors-or-error (a header-trusting reservation is the defect switch); each abstract file is written out for both loaders (huge counts 2^20, 2^28, 2^32-1, truncation points, wrong dimension) and loaded by the real code in a child under an address-space limit, recording outcome and bytes allocated; searches are paired with and without a random attached index (same candidates, scores only raised within 1+alpha, order kept); cosine symmetry, range and guard cases are evaluated on random vectors; TLC validates every recorded observation.",
+   note="Float values reach TLC as classes; memory measured as TotalAlloc in the child."),
 }
 NOT_APPLICABLE = {}
 
